@@ -9,11 +9,11 @@ WT=/tmp/wt-refac-$$
 OUT=/tmp/refac-out-$$
 git -C /repo worktree add -q --detach $WT HEAD || exit 2
 trap 'git -C /repo worktree remove --force $WT >/dev/null 2>&1; rm -rf $OUT' EXIT
-mkdir -p $OUT; cp /verif/known_findings.json $OUT/
+mkdir -p $OUT; cp ${VERIF_HOME:-/verif}/known_findings.json $OUT/
 git -C $WT apply $P || { echo "PATCH DOES NOT APPLY"; exit 3; }
 (cd $WT && go build ./... ) || { echo "BUILD FAILS"; exit 3; }
 bad=0
-run() { c=$1; mkdir -p $OUT/$c; cp $OUT/known_findings.json $OUT/$c/; VERIF_REPO=$WT /verif/bin/check $c quick -verif $OUT/$c > $OUT/$c.log 2>&1; echo $? > $OUT/$c.rc; }
+run() { c=$1; mkdir -p $OUT/$c; cp $OUT/known_findings.json $OUT/$c/; VERIF_REPO=$WT ${VERIF_HOME:-/verif}/bin/check $c quick -verif $OUT/$c > $OUT/$c.log 2>&1; echo $? > $OUT/$c.rc; }
 for c in $PROPS; do run $c & 
   while [ $(jobs -r | wc -l) -ge 8 ]; do sleep 0.2; done
 done; wait
